@@ -46,9 +46,9 @@ def auc_ties(y, s):
   return (gt + 0.5 * eq) / float(len(pos) * len(neg))
 
 
-def close_diff(a, b, scale):
+def close_diff(a, b, scale, ulps=2):
   """|a-b| within 2 ulp of the magnitudes that were subtracted."""
-  tol = 2 * np.spacing(np.maximum(np.abs(scale), np.finfo(float).tiny))
+  tol = ulps * np.spacing(np.maximum(np.abs(scale), np.finfo(float).tiny))
   return bool(np.all(np.abs(np.asarray(a) - np.asarray(b)) <= tol))
 
 
@@ -152,9 +152,15 @@ class Oracle(object):
       df, formed = df[keep], formed[keep]
       pred = None if pred is None else pred[keep]
       m.cov["batches_with_overflowing_tuple"] += 1
+      # the reference distances come from calls with another number of rows: BLAS may round
+      # the same product differently for another batch shape (seen: 2 ulp), so these
+      # cross-call comparisons get 64 ulp instead of 1-4
+      U = 64
+    else:
+      U = 1
     if ts == 2:
       dist = est.pair_distance(formed)
-      if not ulp_close(df, -dist, 1):
+      if not ulp_close(df, -dist, U):
         raise Violation("pairs_decision_function", "cls=%s" % h.name,
                         "decision_function %r != -pair_distance %r" % (df.tolist(), dist.tolist()))
       thr = est.threshold_
@@ -164,7 +170,7 @@ class Oracle(object):
                         "threshold_=%r distances=%r predict=%r expected=%r"
                         % (thr, (-df).tolist(), None if pred is None else pred.tolist(), exp.tolist()))
       # also against the independently obtained distance, away from the cut
-      far = np.abs(dist - thr) > 4 * np.spacing(np.maximum(np.abs(dist), abs(thr)))
+      far = np.abs(dist - thr) > 4 * U * np.spacing(np.maximum(np.abs(dist), abs(thr)))
       exp2 = np.where(dist <= thr, 1, -1)
       if not np.array_equal(pred[far], exp2[far]):
         raise Violation("pairs_predict", "cls=%s,vs_pair_distance" % h.name,
@@ -181,14 +187,14 @@ class Oracle(object):
     elif ts == 3:
       dab = est.pair_distance(formed[:, [0, 1]])
       dac = est.pair_distance(formed[:, [0, 2]])
-      if not close_diff(df, dac - dab, np.maximum(dab, dac)):
+      if not close_diff(df, dac - dab, np.maximum(dab, dac), 2 * U):
         raise Violation("triplets_decision_function", "cls=%s" % h.name,
                         "decision_function %r != d(a,c)-d(a,b) %r" % (df.tolist(), (dac - dab).tolist()))
       exp = np.where(df > 0, 1, -1)
       if not np.array_equal(pred, exp):
         raise Violation("triplets_predict", "cls=%s,vs_decision" % h.name,
                         "predict %r, decision_function %r" % (pred.tolist(), df.tolist()))
-      clear = np.abs(dac - dab) > 4 * np.spacing(np.maximum(dab, dac))
+      clear = np.abs(dac - dab) > 4 * U * np.spacing(np.maximum(dab, dac))
       exp2 = np.where(dab < dac, 1, -1)
       if not np.array_equal(pred[clear], exp2[clear]):
         raise Violation("triplets_predict", "cls=%s,vs_distances" % h.name,
@@ -202,7 +208,7 @@ class Oracle(object):
                           % (df[same_bc].tolist(), pred[same_bc].tolist()))
       sw = formed[:, [0, 2, 1]]
       df2 = est.decision_function(sw)
-      if not close_diff(df2, -df, np.maximum(dab, dac)):
+      if not close_diff(df2, -df, np.maximum(dab, dac), 2 * U):
         raise Violation("triplets_swap", "cls=%s" % h.name,
                         "swapping b and c does not negate the decision function: %r vs %r"
                         % (df.tolist(), df2.tolist()))
@@ -214,13 +220,13 @@ class Oracle(object):
     elif ts == 4:
       dab = est.pair_distance(formed[:, [0, 1]])
       dcd = est.pair_distance(formed[:, [2, 3]])
-      if not close_diff(df, dcd - dab, np.maximum(dab, dcd)):
+      if not close_diff(df, dcd - dab, np.maximum(dab, dcd), 2 * U):
         raise Violation("quadruplets_decision_function", "cls=%s" % h.name,
                         "decision_function %r != d(c,d)-d(a,b) %r" % (df.tolist(), (dcd - dab).tolist()))
       if not np.array_equal(pred, np.sign(df)):
         raise Violation("quadruplets_predict", "cls=%s,vs_decision" % h.name,
                         "predict %r, decision_function %r" % (pred.tolist(), df.tolist()))
-      clear = np.abs(dcd - dab) > 4 * np.spacing(np.maximum(dab, dcd))
+      clear = np.abs(dcd - dab) > 4 * U * np.spacing(np.maximum(dab, dcd))
       if not np.array_equal(pred[clear], np.sign(dcd - dab)[clear]):
         raise Violation("quadruplets_predict", "cls=%s,vs_distances" % h.name,
                         "predict %r but d(a,b)=%r d(c,d)=%r" % (pred.tolist(), dab.tolist(), dcd.tolist()))
@@ -231,7 +237,7 @@ class Oracle(object):
           raise Violation("quadruplets_predict", "cls=%s,tie" % h.name,
                           "identical pairs must give prediction 0: %r" % pred[same].tolist())
       df2 = est.decision_function(formed[:, [2, 3, 0, 1]])
-      if not close_diff(df2, -df, np.maximum(dab, dcd)):
+      if not close_diff(df2, -df, np.maximum(dab, dcd), 2 * U):
         raise Violation("quadruplets_swap", "cls=%s" % h.name,
                         "swapping the pairs does not negate the decision function")
     if live["via"] == "formed":
